@@ -7,7 +7,11 @@ import (
 	"encoding/json"
 	"fmt"
 	"os"
+	"reflect"
 	"regexp"
+	"regexp/syntax"
+	"unicode"
+	"unsafe"
 
 	"github.com/dlclark/regexp2"
 
@@ -25,6 +29,8 @@ type patOut struct {
 	Converted  string `json:"converted"`
 	GoCompiles bool   `json:"go_compiles"`
 	Engine     string `json:"engine"` // go, regexp2, error
+	Executed   string `json:"executed,omitempty"` // text of the *regexp.Regexp the returned value really holds
+	AST        *node  `json:"ast,omitempty"`      // regexp/syntax.Parse(Executed, Perl): the real engine's own reading
 	StringOK   bool   `json:"string_ok"`
 	Err        string `json:"err,omitempty"`
 }
@@ -32,6 +38,99 @@ type patOut struct {
 type matchOut struct {
 	Ogen    string `json:"ogen"`    // "true", "false", or "error: ..."
 	Regexp2 string `json:"regexp2"` // likewise
+}
+
+// node is the JSON form of a regexp/syntax.Regexp (Go's own parser = the front end of the engine ogen runs).
+type node struct {
+	Op  string  `json:"op"`
+	R   []int   `json:"r,omitempty"` // class: lo,hi pairs
+	Min int     `json:"min,omitempty"`
+	Max int     `json:"max,omitempty"`
+	Sub []*node `json:"sub,omitempty"`
+}
+
+func foldClass(r rune) []int {
+	out := []int{int(r), int(r)}
+	for f := unicode.SimpleFold(r); f != r; f = unicode.SimpleFold(f) {
+		out = append(out, int(f), int(f))
+	}
+	return out
+}
+
+func toNode(re *syntax.Regexp) *node {
+	n := &node{}
+	for _, s := range re.Sub {
+		n.Sub = append(n.Sub, toNode(s))
+	}
+	switch re.Op {
+	case syntax.OpNoMatch:
+		n.Op = "nomatch"
+	case syntax.OpEmptyMatch:
+		n.Op = "empty"
+	case syntax.OpLiteral:
+		n.Op = "cat"
+		for _, r := range re.Rune {
+			c := &node{Op: "cc", R: []int{int(r), int(r)}}
+			if re.Flags&syntax.FoldCase != 0 {
+				c.R = foldClass(r)
+			}
+			n.Sub = append(n.Sub, c)
+		}
+	case syntax.OpCharClass:
+		n.Op = "cc"
+		for _, r := range re.Rune {
+			n.R = append(n.R, int(r))
+		}
+	case syntax.OpAnyCharNotNL:
+		n.Op = "anynl"
+	case syntax.OpAnyChar:
+		n.Op = "any"
+	case syntax.OpBeginLine:
+		n.Op = "bol"
+	case syntax.OpEndLine:
+		n.Op = "eol"
+	case syntax.OpBeginText:
+		n.Op = "bot"
+	case syntax.OpEndText:
+		n.Op = "eot"
+	case syntax.OpWordBoundary:
+		n.Op = "wb"
+	case syntax.OpNoWordBoundary:
+		n.Op = "nwb"
+	case syntax.OpCapture:
+		n.Op = "cap"
+	case syntax.OpStar:
+		n.Op = "star"
+	case syntax.OpPlus:
+		n.Op = "plus"
+	case syntax.OpQuest:
+		n.Op = "quest"
+	case syntax.OpRepeat:
+		n.Op, n.Min, n.Max = "rep", re.Min, re.Max
+	case syntax.OpConcat:
+		n.Op = "cat"
+	case syntax.OpAlternate:
+		n.Op = "alt"
+	default:
+		n.Op = "unknown:" + re.Op.String()
+	}
+	return n
+}
+
+// executedExp digs the *regexp.Regexp out of the value ogenregex.Compile returned (unexported field
+// of an unexported type), so that what is validated is the expression that really runs.
+func executedExp(re any) (*regexp.Regexp, bool) {
+	v := reflect.ValueOf(re)
+	if v.Kind() != reflect.Struct {
+		return nil, false
+	}
+	want := reflect.TypeOf((*regexp.Regexp)(nil))
+	for i := 0; i < v.NumField(); i++ {
+		if v.Field(i).Type() == want {
+			return (*regexp.Regexp)(unsafe.Pointer(v.Field(i).Pointer())), true
+		}
+	}
+	return nil, false
 }
 
 func b2s(b bool, err error) string {
@@ -76,14 +175,18 @@ func main() {
 				o.GoCompiles = cerr == nil
 			}
 			re, err := ogenregex.Compile(p)
-			switch {
-			case err != nil:
+			if err != nil {
 				o.Engine = "error"
 				o.Err = err.Error()
-			case o.ConvertOK && o.GoCompiles:
+			} else if exp, ok := executedExp(re); ok && exp != nil {
+				// the value holds a *regexp.Regexp: the linear-time engine runs
 				o.Engine = "go"
 				o.StringOK = re.String() == p
-			default:
+				o.Executed = exp.String()
+				if parsed, perr := syntax.Parse(o.Executed, syntax.Perl); perr == nil {
+					o.AST = toNode(parsed)
+				}
+			} else {
 				o.Engine = "regexp2"
 				o.StringOK = re.String() == p
 			}
